@@ -200,6 +200,11 @@ def plan(ctx):
                         ns = 8 if nP == 4 else (8 if th else 2)
                         for sh in range(ns):
                             cases.append({"kind": "modes", "cfg": cfg, "blobs": blobs, "base": ctx.seed, "max_dev": 2 if (th and nP == 3) else 1, "shard": sh, "nshards": ns})
+    # a likelihood supported on a thin slab: whole warm-up batches are discarded and redrawn (calls must count them)
+    for kern in ("tpcn", "rwm"):
+        for blobs in (False, True):
+            cfg = dict(n_particles=3, d=1, n_total=12, sample=kern, clustering=False, resample="mult", target="sliver")
+            cases.append({"kind": "modes", "cfg": cfg, "blobs": blobs, "base": ctx.seed, "max_dev": 1, "shard": 0, "nshards": 1})
     ctx.bounds.update({"mode_cases": len(cases), "batch_sizes": [3, 4], "permutations": "all 3! / 4! at every map call", "deviating_calls": "1 (quick), 2 for n=3 (thorough, permutation pairs on a diagonal)"})
     if th:
         ctx.cap("2-deviation schedules use a diagonal of permutation pairs (every call pair x every first permutation), not the full 5x5 / 23x23 product")
